@@ -120,6 +120,7 @@ def campaign_model(ck: Check, n: int, parts: tuple = ("valid", "tr", "acc"), for
     ca = ck.campaign("sem.valid (Dcg.Sem.validJ) vs jsonschema on seeded (schema, instance) pairs") if "valid" in parts else None
     cb = ck.campaign("sem.tr (Model.Translate.tr) vs IR dump of JsonSchemaParser(...).parse_raw()") if "tr" in parts else None
     cc = ck.campaign("sem.accepts (Sem.Pyd.acceptsTy ∘ tr) vs the exec'd generated classes") if "acc" in parts else None
+    cd = ck.campaign("sem.dump (Sem.Pyd.dump ∘ tr) vs model_dump(by_alias=True, exclude_unset=True) / .json(...) of the exec'd classes") if "acc" in parts else None
     t0 = time.time()
     rng = ck.rng.fork(fork)
     reqs: list[str] = []
@@ -166,8 +167,15 @@ def campaign_model(ck: Check, n: int, parts: tuple = ("valid", "tr", "acc"), for
                     reqs.append(f"sem.trdef {st} {r} {dsx} {ssx} {semlean.hx(dn)}")
                     meta.append(("tr", doc, st, r, dn))
             for r in ("contype", "field") if cc else ():
-                for jx, lab, x in enc:
-                    reqs.append(f"sem.accepts {st} {r} {FUEL_ACCEPT} {rsx} {dsx} {ssx} {jx}")
+                extra = []
+                u = add_undeclared(doc, vi[0]) if vi else None
+                if u:
+                    try:
+                        extra.append((semlean.json_sx(u[0]), True, u[0]))
+                    except semlean.Unmodelled:
+                        pass
+                for jx, lab, x in enc + extra:
+                    reqs.append(f"sem.dump {st} {r} {FUEL_ACCEPT} {rsx} {dsx} {ssx} {jx}")
                     meta.append(("acc", doc, st, r, x, lab))
     replies = ck.driver.run(reqs)
     built: dict = {}
@@ -230,8 +238,8 @@ def campaign_model(ck: Check, n: int, parts: tuple = ("valid", "tr", "acc"), for
                 cc.unmodelled += 1
                 cc.hit("class-not-importable")
                 continue
-            ok, _ = b.validate(x)
-            tri = rep[3:]
+            ok, obj = b.validate(x)
+            tri, decl, dumped = rep[3:].split(" ", 2)
             cc.hit(f"model:{tri}")
             if tri == "lax":
                 cc.unmodelled += 1
@@ -254,9 +262,32 @@ def campaign_model(ck: Check, n: int, parts: tuple = ("valid", "tr", "acc"), for
                 ck.disagree(cc, {"doc": doc, "instance": x, "style": st, "routing": r}, tri, "accept" if ok else "reject")
             elif len(cc.samples) < 2 and not ok:
                 cc.samples.append({"doc": doc, "instance": x, "style": st, "routing": r, "verdict": tri})
+            if ok and tri == "accept":
+                # the dump: Lean's `dump` against the real serialisation of the validated object. With undeclared
+                # members AND a union the alternative pydantic picks (smart mode) is outside the model.
+                has_union = doc_has(doc, lambda s_: "anyOf" in s_ or "oneOf" in s_)
+                if decl == "0" and has_union:
+                    cd.unmodelled += 1
+                    continue
+                if causes_for(doc, x, st, "dump_mismatch") != "none":
+                    cd.hit("known-deviation")
+                    continue
+                cd.evaluations += 1
+                try:
+                    real = b.dump(obj)
+                except Exception as e:  # noqa: BLE001
+                    real = f"dump raised {type(e).__name__}"
+                model = semlean.json_of_sx(semlean.parse_sx(dumped)[0])
+                cd.hit("declared" if decl == "1" else "undeclared_member")
+                cd.hit("unchanged" if semgen.canon(model) == semgen.canon(x) else "changed")
+                cd.distinct.add(hash((semgen.canon(doc), semgen.canon(x), st, r)))
+                if semgen.canon(model) != semgen.canon(real):
+                    ck.disagree(cd, {"doc": doc, "instance": x, "style": st, "routing": r}, model, real)
+                elif len(cd.samples) < 2 and semgen.canon(model) != semgen.canon(x):
+                    cd.samples.append({"doc": doc, "instance": x, "style": st, "routing": r, "dump": model})
     for b in built.values():
         b.close()
-    live = [c for c in (ca, cb, cc) if c]
+    live = [c for c in (ca, cb, cc, cd) if c]
     for c in live:
         c.wall_s = round((time.time() - t0) / len(live), 2)
 
